@@ -1178,6 +1178,67 @@ fn gen_text(r: &mut Rng, lang: &str, allow_large: bool) -> String {
   cli_world::gen_source(r, lang)
 }
 
+/// What an editor sends after a keystroke or two: the previous text with one local change
+/// (a line duplicated or removed, a character doubled, a snippet typed on a new line, a word renamed).
+fn small_edit(r: &mut Rng, prev: &str, lang: &str) -> String {
+  let lines: Vec<&str> = prev.split_inclusive('\n').collect();
+  match r.below(5) {
+    0 if !lines.is_empty() => {
+      let i = r.below(lines.len());
+      let dup = if lines[i].ends_with('\n') { lines[i].to_string() } else { format!("\n{}", lines[i]) };
+      let mut out: String = lines[..=i].concat();
+      out.push_str(&dup);
+      out.push_str(&lines[i + 1..].concat());
+      out
+    }
+    1 => {
+      let idx: Vec<usize> = prev.char_indices().map(|(i, _)| i).collect();
+      let i = idx[r.below(idx.len())];
+      let ch = prev[i..].chars().next().unwrap();
+      format!("{}{ch}{}", &prev[..i], &prev[i..])
+    }
+    2 if lines.len() > 1 => {
+      let i = r.below(lines.len());
+      lines.iter().enumerate().filter(|(k, _)| *k != i).map(|(_, l)| *l).collect()
+    }
+    3 => {
+      let c = crate::corpus::corpus(if lang.is_empty() { "TypeScript" } else { lang });
+      let i = r.below(lines.len() + 1);
+      let mut out: String = lines[..i].concat();
+      if !out.is_empty() && !out.ends_with('\n') {
+        out.push('\n');
+      }
+      out.push_str(*r.pick(c.snippets));
+      out.push('\n');
+      out.push_str(&lines[i..].concat());
+      out
+    }
+    _ => {
+      let mut words: Vec<(usize, usize)> = vec![];
+      let mut st: Option<usize> = None;
+      for (i, ch) in prev.char_indices() {
+        let a = ch.is_alphanumeric() || ch == '_';
+        match (a, st) {
+          (true, None) => st = Some(i),
+          (false, Some(s0)) => {
+            words.push((s0, i));
+            st = None;
+          }
+          _ => {}
+        }
+      }
+      if let Some(s0) = st {
+        words.push((s0, prev.len()));
+      }
+      if words.is_empty() {
+        return format!("{prev}x\n");
+      }
+      let (a, b) = words[r.below(words.len())];
+      format!("{}{}{}", &prev[..a], r.pick(crate::corpus::WORDS), &prev[b..])
+    }
+  }
+}
+
 pub fn gen_world(seed: u64) -> LspWorld {
   let mut r = Rng::stream(seed, "world");
   let mut project = cli_world::gen_world(&mut r, &GenOpts { max_files: 0, allow_special: false, with_tests: false, fix_heavy: false, order_sensitive_rules: true, hard_links: false, injections: false, lang_globs: false });
@@ -1215,13 +1276,17 @@ pub fn gen_world(seed: u64) -> LspWorld {
   let switch_world = r.chance(0.1);
   let mut open = vec![false; nuri];
   let mut top = vec![0i32; nuri];
+  // the text sent last for each document: most changes are keystroke-sized edits of it
+  let mut last_text: Vec<Option<String>> = vec![None; nuri];
   let n = r.range(2, 14);
   for _ in 0..n {
     let u = r.below(nuri);
     let lang = lang_of(&uris[u].rel);
     if !open[u] {
       top[u] += r.range(1, 3) as i32;
-      history.push(Msg::Open { uri: u, version: top[u], text: gen_text(&mut r, lang, allow_large) });
+      let text = gen_text(&mut r, lang, allow_large);
+      last_text[u] = Some(text.clone());
+      history.push(Msg::Open { uri: u, version: top[u], text });
       open[u] = true;
       continue;
     }
@@ -1242,7 +1307,12 @@ pub fn gen_world(seed: u64) -> LspWorld {
           top[u] += r.range(1, 2) as i32 + if r.chance(0.3) { 1 } else { 0 };
           top[u]
         };
-        history.push(Msg::Change { uri: u, version, text: gen_text(&mut r, lang, allow_large) });
+        let text = match &last_text[u] {
+          Some(prev) if !prev.is_empty() && r.chance(0.5) => small_edit(&mut r, prev, lang),
+          _ => gen_text(&mut r, lang, allow_large),
+        };
+        last_text[u] = Some(text.clone());
+        history.push(Msg::Change { uri: u, version, text });
       }
       12 | 13 => {
         history.push(Msg::Close { uri: u });
@@ -1387,7 +1457,7 @@ impl Simulation for C09Sim {
     if name == "thorough" {
       TierCfg { name: "thorough".into(), max_runs: 400_000, secs: 900 }
     } else {
-      TierCfg { name: "quick".into(), max_runs: 12_000, secs: 150 }
+      TierCfg { name: "quick".into(), max_runs: 9_000, secs: 150 }
     }
   }
   fn run(&self, seed: u64, _tier: &str, known: &KnownFindings) -> RunReport {
